@@ -85,6 +85,9 @@ API_PATHS = [
     ("maparg.literal_nested", "DataPath('l', ListValue(value=Value.equal_to({'b': u2, 'src': {'path': [t]}})))", [("t", "int")], "dm"),
     ("maparg.kwargs_literal", "DataPath('l', ListValue(value=Value.items_contain(b={'path.first': [t]})))", [("t", "int")], "dm"),
     ("maparg.datapath_value", "DataPath('l', ListValue(value=Value.items_contain(b=DataPath('l', 0))))", [], "dm"),
+    ("tuplearg.value_eq", "DataPath('a', MapValue(value=Value.equal_to((u2, u3))))", [], "dm"),
+    ("tuplearg.value_in", "DataPath('l', ListValue(value=Value.in_([(u3,), 5])))", [], "dm"),
+    ("tuplearg.value_ne", "DataPath('a', MapValue(value=Value.not_equal_to((u2, u3))))", [], "dm"),
     ("from_str", "DataPath.from_str('a/c/1')", [], "dm"),
     ("from_str.float", "DataPath.from_str('1.5/0')", [], "dk"),
     ("combined.deepcopy", "DataPath.from_part_specs('a', MapValue(key=Key.not_equal_to(k), value=Value.greater_than(t)))", [("k", "str"), ("t", "int")], "dm"),
@@ -126,10 +129,13 @@ def cases(ctx):
     for cid, expr, extra, docid in api_paths:
         params = extra + [("u1", U), ("u2", "int"), ("u3", "int")]
         names = ", ".join(p[0] for p in params)
+        # tuple arguments (DataPath.from_str builds them; tuples as compared values) are not JSON-representable: the specs
+        # are rebuilt from the Python structures, purity / real JSON text are not demanded, silent divergence is still refused
+        lenient = 'from_str' in cid or 'tuplearg' in cid
         body = f"""
 path = {expr}
 doc = {DOCS12[docid]}
-{(ASSERT if 'from_str' not in cid else ASSERT[:ASSERT.index('if ok and concrete_run()')] + 'return ok').replace('FROMSPEC', '').replace('PURE', 'is_json_compatible' if 'from_str' in cid else 'is_json_pure')}
+{(ASSERT if not lenient else ASSERT[:ASSERT.index('if ok and concrete_run()')] + 'return ok').replace('FROMSPEC', '').replace('PURE', 'is_json_compatible' if lenient else 'is_json_pure')}
 """
         out.append(mk_case(f"c12.api.{cid}", params, body, pre=[f"BU({L}, {names})"], stubs=["sym_repr"]))
     for cid, specs, extra, docid in spec_paths:
@@ -165,6 +171,25 @@ ok = ok and same('rebuilt from the second serialisation selects the same', outco
 return ok
 """
         out.append(mk_case(f"c12.history.{cid}", params, body, pre=[f"BU({L}, k, n, u1, u2, u3)"], stubs=["sym_repr"]))
+    # history: what was serialised earlier in the process (parts whose keys compare equal across types: 1.0 / True / 1,
+    # 0.0 / False / 0) must not change how a later path is written
+    for cid, first, expr, extra in [
+        ("float_then_bool", ["DataPath(1.0, 0)", "DataPath(0.0, 'b')"], "DataPath(MapOrListValue(), MapValue(key=bl))", [("bl", "bool")]),
+        ("bool_then_float", ["DataPath(True, 'b')", "DataPath(MapOrListValue(), MapValue(key=False))"], "DataPath(MapOrListValue(), MapValue(key=1.0))", []),
+        ("int_then_bool", ["DataPath(1, 'b')", "DataPath(0)"], "DataPath(MapOrListValue(), MapValue(key=bl))", [("bl", "bool")]),
+        ("bool_then_int", ["DataPath(MapValue(key=True), 'b')", "DataPath(MapOrListValue(), MapValue(key=False))"], "DataPath(MapOrListValue(), i)", [("i", "int")]),
+        ("float_then_int", ["DataPath(1.0)", "DataPath(MapOrListValue(), 2.0)"], "DataPath(MapOrListValue(), MapOrListValue(key=i, index=i))", [("i", "int")]),
+    ]:
+        params = extra + [("u1", U), ("u2", "int"), ("u3", "int")]
+        names = ", ".join(p[0] for p in params)
+        firsts = "\n".join(f"_ = {f}.to_part_specs()" for f in first)
+        body = f"""
+{firsts}
+path = {expr}
+doc = {DOCS12['di']}
+{ASSERT.replace('FROMSPEC', '').replace('PURE', 'is_json_pure')}
+"""
+        out.append(mk_case(f"c12.history.order.{cid}", params, body, pre=[f"BU({L}, {names})"] + (["0 <= i <= 2"] if extra == [("i", "int")] else []), stubs=["sym_repr"]))
     for cid, expr, extra, docid in [
         ("length.first", "DataPath(MapValue(key=Key.not_equal_to(k))).length().first()", [("k", "str")], "dm"),
         ("map_keys", "DataPath('a').map_keys()", [], "dm"),
